@@ -102,14 +102,31 @@ func (q *seq) attempt(kind string, ev *hg.Event) {
 	line := w.EventLine(ev)
 	var err error
 	panicked := false
+	// half of the attempts arrive as gossip does: wire form -> ReadWireInfo -> insert without SetWireInfo
+	viaWire := false
 	func() {
 		defer func() {
 			if r := recover(); r != nil {
 				panicked = true
 			}
 		}()
-		err = q.nd.Hg.InsertEventAndRunConsensus(ev, true)
+		if wev, ok := q.wireOf(ev); ok && q.rng.Intn(2) == 0 {
+			if ev2, rerr := q.nd.Hg.ReadWireInfo(wev); rerr == nil {
+				if ev2.Hex() != ev.Hex() {
+					// the (creator, index) references resolved to other events than the sender meant
+					// (possible only for tampered events): deliver the event directly instead
+					q.kinds["wire-resolves-differently"]++
+				} else {
+					viaWire = true
+					ev = ev2
+				}
+			}
+		}
+		err = q.nd.Hg.InsertEventAndRunConsensus(ev, !viaWire)
 	}()
+	if viaWire {
+		q.kinds["via-wire"]++
+	}
 	cls := classify(err, panicked)
 	fmt.Fprintf(w.Out, "I %d %s => %s\n", q.nd.ID, line, cls)
 	fmt.Fprintf(w.Out, "# attempt kind=%s\n", kind)
@@ -173,6 +190,45 @@ func (q *seq) attempt(kind string, ev *hg.Event) {
 	}
 	// per-creator listing has no two events at one height and no gaps
 	q.nd.AfterActionX(false, false)
+}
+
+// wireOf builds the wire form as a (possibly Byzantine) sender would: parents are referred to by
+// (creator id, index) of the events the harness knows; ok=false when a parent is not a known event.
+func (q *seq) wireOf(ev *hg.Event) (hg.WireEvent, bool) {
+	w := q.w
+	c := w.Ord(ev.Creator())
+	if c < 0 {
+		return hg.WireEvent{}, false
+	}
+	body := hg.WireBody{
+		Transactions:         ev.Body.Transactions,
+		InternalTransactions: ev.Body.InternalTransactions,
+		CreatorID:            w.Peers[c].ID(),
+		Index:                ev.Index(),
+		SelfParentIndex:      -1,
+		OtherParentIndex:     -1,
+		Timestamp:            ev.Body.Timestamp,
+	}
+	if sp := ev.SelfParent(); sp != "" {
+		id := w.Eid(sp)
+		if id < 0 || w.Ord(w.EvByEid[id].Creator()) != c {
+			return hg.WireEvent{}, false
+		}
+		body.SelfParentIndex = w.EvByEid[id].Index()
+	}
+	if op := ev.OtherParent(); op != "" {
+		id := w.Eid(op)
+		if id < 0 {
+			return hg.WireEvent{}, false
+		}
+		oc := w.Ord(w.EvByEid[id].Creator())
+		if oc < 0 {
+			return hg.WireEvent{}, false
+		}
+		body.OtherParentCreatorID = w.Peers[oc].ID()
+		body.OtherParentIndex = w.EvByEid[id].Index()
+	}
+	return hg.WireEvent{Body: body, Signature: ev.Signature}, true
 }
 
 func (q *seq) mkEvent(c int, sp, op string, index int, txs [][]byte, itxs []hg.InternalTransaction, signer int) *hg.Event {
